@@ -6,6 +6,12 @@ CLAIMS = {
  'C15': dict(text="Theorems over the layout functions regenerated from super/super.go by the translator (all accepted sizes < 2^64: regions contiguous, disjoint, inside the disk; inode addresses disjoint; mkfs bitmap marks exactly the non-data blocks) + correspondence of the generated layout and the mkfs model with the real MakeNfs over a dense size range (fields, every bitmap bit, free counts, fill-and-free of whole disks).",
              design="4/C15", technique="Coq proof over translated super.go + differential run of MakeNfs per size",
              note="Trusted: translator for super.go, hand model of markAlloc (tied by bit-exact comparison on every explored size), alloc.Alloc exercised not modelled."),
+ 'C01': dict(text="Theorems about WM, a model of go-journal's write-ahead log at single-disk-write granularity (every crash image of every reachable state recovers a prefix of the appended transactions containing everything acknowledged; a flushed transaction survives every later crash; recovery re-establishes the invariant, so repeated crashes are covered), plus C01_partial lifting transaction prefixes to call prefixes under the refinement hypotheses. Those hypotheses and the WAL model itself are checked on the real server: recorded workloads are cut at event prefixes with un-barriered writes lost in several patterns; for each image the extracted recovery model must equal what the real recovery sees, wf_disk must be empty, abs_disk must equal the reference after a prefix of the calls within [last stable-acked, last issued], the recovered server's allocators must equal the bitmaps and it must go on serving.",
+             design="4/C01", technique="Coq proof of the WAL protocol model + crash-image enumeration judged by extracted Coq definitions",
+             note="Trusted: WM/WalDisk are models of dependency code (validated per image), recording-disk crash model, AM, abs_disk; the one-transaction-per-RPC refinement is sampled."),
+ 'C07': dict(text="AM theorems (write effect independent of stability level, committed level never weaker than requested, FILE_SYNC when the option is off) and WAL-model theorems (recovered = prefix, flushed transactions survive) + crash-image correspondence on mixes of UNSTABLE/DATA_SYNC/FILE_SYNC writes, COMMITs and metadata operations with the option on and off: admissible prefix window per crash point (COMMIT and stable operations are durability points), loss only as a suffix, write verifier constant within an instance and different after recovery.",
+             design="4/C07", technique="Coq proofs on reference and WAL models + crash-image enumeration with durability windows",
+             note="Trusted: as C01; the verifier clause is checked only by observation (it depends on the clock)."),
  'C02': dict(text="Laws of the reference file system AM proved in Coq for all states, calls and hints (a failing call is the identity, read-only procedures are the identity, unsupported procedures and restarts have no effect) + the implementation is compared with the extracted AM reply by reply and with the extracted abstraction of its logical disk after every RPC of generated sequences (all 22 procedures, stale handles, names of every length class, offsets at indirection boundaries, restarts, unstable on/off). The refinement Go code -> AM is sampled, not proved (C02_partial).",
              design="4/C02", technique="Coq laws of the reference model + differential execution of extracted model against the real server",
              note="Trusted: AM as the statement of NFSv3 semantics (Appendix A of DESIGN.md), abs_disk, extraction, OCaml glue; refinement is sampled."),
